@@ -200,7 +200,7 @@ Ltac sweepc :=
   | |- forall b, b < 256 -> @?c b = true -> @eq N (@?f b) (@?g b) => apply (sweep256c c f g); vm_compute; reflexivity
   end.
 
-Global Hint Unfold known_of Ether_findings k_ether_payload HBH_findings_C02 k_hbh_mask k_hbh_overrun : vk.
+Global Hint Unfold known_of Ether_findings k_ether_payload : vk.
 
 (* simplify a hypothesis [known_of fs "Name" v = false] to the arithmetic condition *)
 Ltac simp_known K :=
